@@ -70,7 +70,7 @@ echo; echo "---- semantics-preserving edits (the lemmas must still hold) ----"
 m "(S1) PointFromSignAndY: p.Y = y -> p.Y = new(big.Int).Set(y)  (alias removed, same values)" $B "func PointFromSignAndY(" "p.Y = y" "p.Y = new(big.Int).Set(y)"
 m "(S2) SignPoseidon: S = S.Mul(hm, S) -> S = hm.Mul(hm, S)  (S now aliases hm, same values)" $E "func (k *PrivateKey) SignPoseidon(" "S = S.Mul(hm, S)" "S = hm.Mul(hm, S)"
 
-echo; echo "---- translator checks (bigintgen must exit non-zero) ----"
+echo; echo "---- translator checks (bigintgen exits 3 with a marker definition, or 1 for package-level errors; only the files of that function break) ----"
 m "(T1) InCurve: x2 := new(big.Int).Set(p.X) -> x2 := p.X (in-place write to the receiver's field)" $B "func (p *Point) InCurve(" "x2 := new(big.Int).Set(p.X)" "x2 := p.X"
 m "(T2) PackSignY: a for loop" $B "func PackSignY(" "	if sign {" "	for i := 0; i < 1; i++ {
 	}
